@@ -161,11 +161,23 @@ def guarded(fn, *args):
         return ("bad", type(e).__name__)
 
 
+PAIRS = [
+    ({"x": 1}, {"y": 1}), ({"x": 1, "y": 2}, {"x": 1, "z": 2}), ({"x": None}, {"y": None}), ([{"x": 1}], [{"y": 1}]),
+    ({"x": 1}, {"x": 1}), ([1, 2], [1]), ("a", 1), (None, {}), ([], {}), ({"k": {"x": 1}}, {"k": {"y": 1}}), (1, True),
+    ({"p": "a", "b": "."}, {"p": "[", "b": 1}),
+]
+
+
 def placements(kinds):
     for k in kinds:
         yield k
         yield [k]
         yield {"a": k}
+    # two members / elements of different shapes side by side (comparisons and functions that
+    # take their second operand from the document)
+    for x, y in PAIRS:
+        yield [{"a": x, "b": y}, {"a": y, "b": x}]
+        yield {"a": x, "b": y, "p": y, "s": x}
 
 
 def check_query(text, kinds, sh=None):
